@@ -44,16 +44,16 @@ PROPERTIES = {
     },
     "C01": {
         "title": "Stream bytes are delivered exactly once, in order, unaltered",
-        "steps": [net("C01")],
+        "steps": [net("C01"), tx("txmc_streampair_c01", "verif_streampair_c01", expect=3)],
         "technique": "stateless deviation-bounded exploration of real client+server executions (iterative context bounding over network faults) with a content oracle",
-        "level_text": NET_NOTE + "Oracle DATA: every application read must return exactly the bytes the peer wrote at those offsets (64-bit position-dependent PRF payload), a clean end of stream only after the peer finished and with exactly its length, no data after an error.",
+        "level_text": NET_NOTE + "Oracle DATA: every application read must return exactly the bytes the peer wrote at those offsets (64-bit position-dependent PRF payload), a clean end of stream only after the peer finished and with exactly its length, no data after an error. A component-level engine (txmc) adds explicit-state search over two real StreamImpl objects joined by a bag of in-flight frames (write/finish/reset/transmit with tiny packet capacities/deliver/duplicate/ack/lose/read/stop_sending/credit updates, three window configurations, depth 7+), with the same oracle on every frame the real SendStream writes and every byte the real ReceiveStream hands out.",
         "level_note": "Bounds: k<=2 deviations on small null-TLS scenarios, k<=1 elsewhere (quick); transfer sizes 1 B..70 KB, 1-3 streams, MTU 1228/1500, CUBIC/BBR, windows default or 1500/3000. Real I/O paths (GSO, sockets) and sizes beyond 70 KB not covered. Trusted: bach executor, harness network, PRF oracle.",
         "design_ref": "DESIGN.md §3 C01",
         "assumptions": ["small-scope hypothesis over deviations/scenarios listed in evidence x_cases", "the testing IO provider behaves like the production event loop"],
     },
     "C02": {
         "title": "Every operation terminates: data gets through or the failure is reported",
-        "steps": [net("C02")],
+        "steps": [net("C02"), tx("txmc_streampair_c02", "verif_streampair_c02", expect=3)],
         "technique": "deviation-bounded exploration incl. finite and infinite blackholes at every datagram index; executor stall detection as lost-wake-up oracle",
         "level_text": NET_NOTE + "Oracle LIVE: L1 after any finite fault prefix (incl. 2 s blackholes of either/both directions at every index) every application task completes successfully and every finished stream reaches EOF at the peer; L2 with a blackhole that never ends (every index, every direction) each endpoint reports the connection closed no later than max(idle, 3*PTO, handshake timer)+2 ms after its last timer-restarting event and no task is left parked at the horizon; L3 an executor stall (task parked, no timer armed) is a violation.",
         "level_note": "'Forever' is a 60-120 s virtual-time horizon; blocking kinds exercised: stream credit, connection credit, stream-count credit (peer and local limits), amplification (real TLS), congestion. PTO bound recomputed from the endpoint's own recovery_metrics events (upper bound => no false alarm).",
@@ -62,7 +62,7 @@ PROPERTIES = {
     },
     "C08": {
         "title": "ACKs name only packets really received; packet numbers always reconstruct",
-        "steps": [net("C08")],
+        "steps": [net("C08"), tx("txmc_ackmgr", "txmc_c08_ackmgr", expect=1)],
         "technique": "deviation-bounded exploration with an ACK monitor over clear-text frames (tx ACK ranges vs. rx packet numbers, promptness deadlines)",
         "level_text": NET_NOTE + "Oracle ACK: every range of every ACK frame an endpoint sends is a subset of the packet numbers it decrypted and processed in that space; packet numbers strictly increase per space; every ack-eliciting 1-RTT packet is covered by an ACK sent within max_ack_delay+1 ms, or within 1 ms when it arrived out of order (below an already received ack-eliciting packet, or above a remembered gap).",
         "level_note": "Exemptions derived from the record only: closing/closed endpoint; packets at or below the Largest Acknowledged of an own ACK frame that the peer acknowledged (RFC 9000 13.2.4 lets the receiver forget them); windows in which the endpoint itself sent a congestion-controlled packet within one smoothed RTT (its pacer gates all transmissions, 'allowed to send'). Observation (not a finding): s2n-quic paces ACK-only packets too, so after a large RTT sample ACKs can leave later than max_ack_delay.",
@@ -71,7 +71,7 @@ PROPERTIES = {
     },
     "C09": {
         "title": "Loss detection is sound and in-flight bookkeeping is exact",
-        "steps": [net("C09")],
+        "steps": [net("C09"), tx("txmc_recovery", "txmc_c09_recovery", expect=2)],
         "technique": "deviation-bounded exploration with a loss monitor over the event stream (RFC 9002 6.1 transcription)",
         "level_text": NET_NOTE + "Oracle LOSS (from packet_sent / ack_range_received / packet_lost / recovery_metrics events): a packet is declared lost only if a later-sent packet was acknowledged and (largest_acked - pn >= 3 or it was sent more than max(9/8*max(srtt, latest_rtt), 1 ms) ago, with the 1 ms clock granularity of s2n-quic's Timestamp::has_elapsed); never twice, never after it was acknowledged, never an unsent number; min_rtt <= latest sample; smoothed_rtt within the sample range.",
         "level_note": "RTT values are the endpoint's own metrics events (the smaller of the values before/after the ACK that triggered the loss, since the estimator is updated before detection). MTU probes are exempt (own timer). Component-level exhaustive search of recovery::Manager is a separate engine (txmc) when registered.",
@@ -89,7 +89,7 @@ PROPERTIES = {
     },
     "C12": {
         "title": "What an endpoint sends on a stream and at close is self-consistent",
-        "steps": [net("C12")],
+        "steps": [net("C12"), tx("txmc_streampair_c12", "verif_streampair_c12", expect=3)],
         "technique": "deviation-bounded exploration with a per-stream consistency monitor over all transmitted clear-text frames and close datagrams",
         "level_text": NET_NOTE + "Oracle TXCONS: per endpoint and stream, overlapping (re)transmissions carry identical bytes; no data at/after an announced final size; the final size never changes and is never below data already sent; no STREAM/STREAM_DATA_BLOCKED after RESET_STREAM; stream ids of each type are handed out in increasing order; after the first CONNECTION_CLOSE only byte-identical copies of that datagram leave, at most one per datagram that arrived.",
         "level_note": "Application scripts: finish/reset/drop/close placed at every step of a multi-stream transfer, peer STOP_SENDING/RESET/close, x loss/dup/reorder at every index. One known finding (empty open-notify STREAM frame retransmitted after RESET_STREAM) is listed in known_findings.json and reported as KNOWN-FINDING.",
@@ -104,5 +104,32 @@ PROPERTIES = {
         "level_note": "Component level: path::Manager / ApplicationSpace glue is transcribed (sources named in engines/txmc/cid.rs); constant id lifetimes; the issuer is never starved for >= 10 s. Routing clause covers the RFC MUST only (until the issuer has put a Retire Prior To above the id on the wire). Mounted into the crate's unit-test build by hook H1.",
         "design_ref": "DESIGN.md §3 C13",
         "assumptions": ["small-scope hypothesis", "transcribed glue matches path::Manager", "constant connection-id lifetimes"],
+    },
+    "C03": {
+        "title": "A sender never exceeds the flow-control and stream limits its peer granted",
+        "steps": [net("C03"), tx("txmc_streampair_c03", "verif_streampair_c03", expect=3)],
+        "technique": "deviation-bounded exploration with a flow-control monitor over clear-text frames + explicit-state search of a real StreamImpl pair",
+        "level_text": NET_NOTE + "Oracle FC: per endpoint, limits start from the transport parameters it received and grow only with MAX_DATA / MAX_STREAM_DATA / MAX_STREAMS frames it processed; every STREAM frame end offset <= stream limit, sum of stream lengths (RESET final sizes included) <= connection limit, every locally initiated stream id referenced is below the stream-count limit, RESET_STREAM final size <= stream limit. Windows 1..4096 incl. stream != connection window, write > window then reset, stream-count limits 1 and 2, lost/duplicated/reordered MAX_* frames." + """ A component-level engine (txmc) adds explicit-state search over two real StreamImpl objects joined by a bag of in-flight frames with stale / equal / +1 / +5 limit updates, three window configurations, depth 7+.""",
+        "level_note": "The genuine defect found by both engines (RESET_STREAM final size above the stream limit) was repaired by a fix: commit and is recorded as fixed in known_findings.json; the check reports it again if it returns. initial_max_data is taken from the scenario configuration (the event does not expose it).",
+        "design_ref": "DESIGN.md §3 C03",
+        "assumptions": ["small-scope hypothesis"],
+    },
+    "C04": {
+        "title": "Peer protocol violations are rejected with the right error; buffering is bounded",
+        "steps": [net("C04"), tx("txmc_advmgr", "verif_advmgr_c04", expect=2)],
+        "technique": "explicit-state search of the real stream manager under an adversarial frame catalogue + e2e credit monitor",
+        "level_text": "txmc: the real AbstractStreamManager<StreamImpl> (server and client role) is driven through every sequence (depth 8 quick, deeper thorough) of honest operations and adversarial frames - data beyond the stream / connection limit, stream ids at and beyond the limit for both peer-initiated types, FIN then FIN at +-1, data beyond a known final size, RESET_STREAM with a final size different from FIN / below received / above the limit, STREAM / RESET_STREAM / STREAM_DATA_BLOCKED on send-only streams, MAX_STREAM_DATA / STOP_SENDING on receive-only streams (live and already closed), frames for unopened local streams, MAX_STREAMS > 2^60 - each must yield a transport error from the set the RFC sentence allows (prescribed code or PROTOCOL_VIOLATION per RFC 9000 11), no offending byte may reach the application, honest operations never error. " + NET_NOTE + "Oracle CREDIT on every execution: MAX_STREAM_DATA <= bytes the application consumed on the stream + configured stream window, MAX_DATA <= total consumed + connection window, MAX_STREAMS <= peer streams opened + configured limit.",
+        "level_note": "Two genuine defects (frames for a non-existent stream half accepted) were repaired by a fix: commit; one remains a listed known finding (RESET_STREAM with a final size below data already received is accepted; RFC 9000 4.5 SHOULD, an in-tree test sends exactly such a frame). Frame-type-per-packet-space and malformed NEW_CONNECTION_ID clauses are exercised by C05/C13 engines, not here; the e2e adversarial-peer family (netmc ADV) is not part of this revision.",
+        "design_ref": "DESIGN.md §3 C04",
+        "assumptions": ["small-scope hypothesis", "catalogue of violations in engines/txmc/stream_advmgr.rs"],
+    },
+    "C10": {
+        "title": "Congestion control keeps its window and sending within RFC 9002 bounds",
+        "steps": [net("C10")],
+        "technique": "deviation-bounded exploration with a send-gate monitor over the event stream (independent bytes-in-flight bookkeeping vs. the reported window)",
+        "level_text": NET_NOTE + "Oracle SENDGATE: the monitor keeps its own bytes-in-flight sum from packet_sent / ack_range_received / packet_lost / key_space_discarded events; a congestion-controlled packet in normal transmission mode may only be sent while that sum is below the congestion window last reported, except one packet after a congestion event (RFC 9002 7.3.2); probes (loss-recovery mode) are exempt. CUBIC and BBR scenarios, losses at every index.",
+        "level_note": "This revision registers the end-to-end clause; the controller-level clauses (window floor, no growth when application limited, one reduction per round trip, persistent congestion) are decided by the seqmc c10 families once wired. Congestion-controlled = carries an ack-eliciting frame (s2n-quic's definition).",
+        "design_ref": "DESIGN.md §3 C10",
+        "assumptions": ["small-scope hypothesis", "event stream is faithful"],
     },
 }
